@@ -212,3 +212,35 @@ def passthrough_desc(descriptor):
     with quiet():
         out = Flow(dataflows.DataStreamProcessor()).datastream(ds)
         return copy.deepcopy(out.dp.descriptor)
+
+
+class FeedStep(dataflows.DataStreamProcessor):
+    """A source step (public extension point: DataStreamProcessor subclass) that appends typed tables
+    without stripping or casting, so that Flow(FeedStep(...), steps...).results()/process() can be
+    observed end to end (including the ProcessorError wrapping done by the driver)."""
+
+    def __init__(self, descriptor, tables, sequential=False):
+        super().__init__()
+        self._desc = copy.deepcopy(descriptor)
+        self._tables = tables
+        self._sequential = sequential
+
+    def process_datapackage(self, dp):
+        for k, v in self._desc.items():
+            if k != 'resources':
+                dp.descriptor.setdefault(k, v)
+        dp.descriptor.setdefault('resources', []).extend(self._desc['resources'])
+        return dp
+
+    def process_resources(self, resources):
+        yield from super().process_resources(resources)
+        ds = feed(self._desc, self._tables, sequential=self._sequential)
+        for rw in ds.res_iter:
+            yield rw.it
+
+
+def run_results(steps, descriptor, tables, on_error=None, sequential=False):
+    """Flow(FeedStep, *steps).results(on_error) -> (tables, descriptor, stats); raises what Flow raises."""
+    with quiet():
+        res, dp, stats = Flow(FeedStep(descriptor, tables, sequential), *steps).results(on_error=on_error)
+    return res, copy.deepcopy(dp.descriptor), stats
